@@ -104,17 +104,30 @@ theorem C19_tokens_other (fuel : Nat) (t : Token) (rest : List Token)
 theorem C19_end_of_input (t : Token) (rest : List Token) (h : t.text = "") : possibleE (t :: rest) = .ok none :=
   Meas.possibleE_end t rest h
 
-/-- `n(s)` : the digits in parentheses are an uncertainty in the last digits of n (F28) -/
+/-- `n(s)` : the digits in parentheses are an uncertainty in the last digits of the mantissa of n (F28) -/
 theorem C19_paren_digits (nominal std : String) (h : std.toList.contains '.' = false) :
-    (parenStd nominal std).toList.filter (· != '.') = rjustZero std.toList (decimalsOf nominal + 1) :=
-  Meas.parenStd_digits nominal std h
+    (parenMant nominal std).toList.filter (· != '.') = rjustZero std.toList (decimalsOf nominal + 1) :=
+  Meas.parenMant_digits nominal std h
 
 theorem C19_paren_point (nominal std : String) (h : std.toList.contains '.' = false) (hd : decimalsOf nominal ≠ 0) :
-    ∃ ip fp, (parenStd nominal std).toList = ip ++ ['.'] ++ fp ∧ fp.length = decimalsOf nominal ∧ ip ≠ [] ∧
-      ip ++ fp = rjustZero std.toList (decimalsOf nominal + 1) := Meas.parenStd_point nominal std h hd
+    ∃ ip fp, (parenMant nominal std).toList = ip ++ ['.'] ++ fp ∧ fp.length = decimalsOf nominal ∧ ip ≠ [] ∧
+      ip ++ fp = rjustZero std.toList (decimalsOf nominal + 1) := Meas.parenMant_point nominal std h hd
+
+/-- ... and they carry the exponent of n (F70): without an exponent the text is the aligned digits, with one the
+    same exponent is appended; an uncertainty written with a decimal point is taken as it stands -/
+theorem C19_paren_exponent (nominal std : String) (h : std.toList.contains '.' = false) :
+    parenStd nominal std =
+      (if exponentOf nominal == "" then parenMant nominal std else parenMant nominal std ++ "e" ++ exponentOf nominal) := by
+  unfold parenStd
+  simp only [h, Bool.false_eq_true, if_false]
+
+theorem C19_paren_explicit (nominal std : String) (h : std.toList.contains '.' = true) : parenStd nominal std = std := by
+  unfold parenStd
+  simp only [h, if_true]
 
 example : parenStd "2.00" "3" = "0.03" ∧ parenStd "12.3" "45" = "4.5" ∧ parenStd "2" "3" = "3" ∧ parenStd "2.0" "3" = "0.3"
-    ∧ parenStd "1.5" "1.2" = "1.2" ∧ parenStd "2.000" "30" = "0.030" ∧ parenStd "1.234e-3" "56" = "0.056" := by decide +kernel
+    ∧ parenStd "1.5" "1.2" = "1.2" ∧ parenStd "2.000" "30" = "0.030" ∧ parenStd "1.234e-3" "56" = "0.056e-3"
+    ∧ parenStd "1.50E3" "2" = "0.02e3" ∧ parenStd "1e3" "2" = "2e3" := by decide +kernel
 
 /-- whole notations, through the tokenizer -/
 example : (uncTokens 20 [⟨.op, "("⟩, ⟨.number, "2.0"⟩, ⟨.op, "+"⟩, ⟨.op, "/"⟩, ⟨.op, "-"⟩, ⟨.number, "0.3"⟩, ⟨.op, ")"⟩,
